@@ -1,4 +1,5 @@
 // Implementation-side harness: runs /repo's crates on case files, one case per line.
+mod buffer;
 mod codec;
 
 use std::io::{BufRead, Write};
@@ -9,6 +10,7 @@ fn main() {
     std::panic::set_hook(Box::new(|_| {}));
     let handler: fn(&[&str]) -> String = match comp.as_str() {
         "codec" => codec::handle,
+        "buffer" => buffer::handle,
         _ => {
             eprintln!("unknown component {comp}");
             std::process::exit(2);
